@@ -19,6 +19,7 @@ import (
 	"os"
 	"sort"
 	"strings"
+	"sync"
 	"time"
 
 	"github.com/jhalter/mobius/hotline"
@@ -1008,7 +1009,21 @@ func runTargeted(c *Case) {
 	admin := mk(2, "admin")    // id 1
 	old := mk(0, "old-holder") // id 2
 	other := mk(1, "other")    // id 3
-	_ = other
+	// a private chat with the old holder and `other` in it: after the wrap the chat's traffic must follow the
+	// CONNECTION that joined, not whoever holds the id now
+	var chat []byte
+	for _, t := range func() []hotline.Transaction {
+		o, _ := h.call(admin, mkTran(hotline.TranInviteNewChat, 901, fld(hotline.FieldUserID, old.cc.ID[:])))
+		return o
+	}() {
+		if t.IsReply == 1 {
+			chat, _ = fieldOf(&t, 114)
+		}
+	}
+	if len(chat) == 4 {
+		h.call(old, mkTran(hotline.TranJoinChat, 902, fld(hotline.FieldChatID, chat)))
+		h.call(other, mkTran(hotline.TranJoinChat, 903, fld(hotline.FieldChatID, chat)))
+	}
 	// bystanders at ids the wrap passes
 	mgr.VerifSetNextClientID(uint32(r.Pick(65533, 65534, 4294967294)))
 	by := mk(0, "bystander")
@@ -1024,6 +1039,45 @@ func runTargeted(c *Case) {
 	if neu.id == 0 || (keepOld && neu.id == old.id) || neu.id == admin.id || neu.id == by.id {
 		c.Violation("user-id-shared", fmt.Sprintf("the newcomer got user id %d", neu.id))
 		return
+	}
+	// chat traffic after the wrap: subject change (119) and a join notice (117) reach the members' connections only
+	if len(chat) == 4 {
+		chatMembers := map[*hotline.ClientConn]bool{admin.cc: true, other.cc: true}
+		if keepOld {
+			chatMembers[old.cc] = true
+		}
+		judgeChat := func(what string, outs []hotline.Transaction, ty int) {
+			got := map[*hotline.ClientConn]int{}
+			for i := range outs {
+				if outs[i].IsReply == 0 && tranType(&outs[i]) == ty {
+					if cc := ts.Srv.ClientMgr.Get(outs[i].ClientID); cc != nil {
+						got[cc]++
+					}
+				}
+			}
+			for cc, n := range got {
+				if !chatMembers[cc] {
+					c.Note("outputs", clip(outsStr(outs)))
+					c.Violation("addressed-to-wrong-user", fmt.Sprintf("%s of a private chat reached (%d×) user %q (id %d), who never joined it: a member that disconnected held that id before the id counter wrapped", what, n, cc.UserName, binary.BigEndian.Uint16(cc.ID[:])))
+					return
+				}
+			}
+			for cc := range chatMembers {
+				if got[cc] != 1 {
+					c.Violation("chat-member-missed", fmt.Sprintf("%s of a private chat reached member %q %d times, expected once", what, cc.UserName, got[cc]))
+					return
+				}
+			}
+		}
+		if outs, ok := h.call(other, mkTran(hotline.TranSetChatSubject, 910, fld(hotline.FieldChatID, chat), fld(hotline.FieldChatSubject, []byte("after the wrap")))); ok {
+			judgeChat("a subject change", outs, 119)
+		}
+		if outs, ok := h.call(by, mkTran(hotline.TranJoinChat, 911, fld(hotline.FieldChatID, chat))); ok && !c.failed {
+			judgeChat("a join notice", outs, 117)
+		}
+		if c.failed {
+			return
+		}
 	}
 	target := neu
 	if keepOld && r.Bool() {
@@ -1125,6 +1179,88 @@ func runTargeted(c *Case) {
 	}
 	c.Nontrivial(fmt.Sprintf("targeted keep=%v new=%d target=%d", keepOld, neu.id, target.id))
 	c.Dist(fmt.Sprintf("targeted/keepOld=%v", keepOld))
+}
+
+// ---------------------------------------------------------------- a login racing a disconnect
+
+// hookMgr wraps the server's client manager (an interface field): the first List() after arming runs a hook right
+// after the list has been taken — the harness's way of placing another client's login + list fetch between two
+// steps of somebody else's Disconnect.
+type hookMgr struct {
+	hotline.ClientManager
+	mu     sync.Mutex
+	onList func()
+}
+
+func (m *hookMgr) List() []*hotline.ClientConn {
+	l := m.ClientManager.List()
+	m.mu.Lock()
+	f := m.onList
+	m.onList = nil
+	m.mu.Unlock()
+	if f != nil {
+		f()
+	}
+	return l
+}
+
+// runDisconnectRace forces the one schedule a sequential history cannot show: while user X disconnects, user C logs in
+// and fetches the user list exactly when Disconnect lists the table to pick the audience of its user-left notice.
+// Whatever C saw, its roster must converge: either it never saw X (X already removed) or it is told that X left.
+func runDisconnectRace(c *Case) {
+	r := c.R
+	ts, err := newTS(TSOpt{Direct: true, Accounts: c13Accounts()})
+	if err != nil {
+		panic(err)
+	}
+	defer ts.Close()
+	hm := &hookMgr{ClientManager: ts.Srv.ClientMgr}
+	ts.Srv.ClientMgr = hm
+	h := &c13run{c: c, ts: ts, req: 1000, ops: map[string]int{}}
+	n := 2 + r.Intn(3)
+	for i := 0; i < n; i++ {
+		cl := h.connect(r)
+		h.agree(r, cl)
+		if !cl.fetched {
+			h.fetch(cl)
+		}
+	}
+	x := h.clients[r.Intn(len(h.clients))]
+	var racer *c13cl
+	hm.mu.Lock()
+	hm.onList = func() {
+		racer = h.connect(r)
+		h.agree(r, racer)
+		if !racer.fetched {
+			h.fetch(racer)
+		}
+	}
+	hm.mu.Unlock()
+	x.live = false // from the harness's point of view X is going: nothing is owed to it any more
+	outs := disconnectSync(ts, x.cc)
+	h.record(fmt.Sprintf("D %d", x.id), outs)
+	if racer == nil {
+		c.Disagree("disconnect-race-setup", "Disconnect did not list the client table (the forced schedule could not be placed)")
+		return
+	}
+	c.Note("leaver", x.id)
+	c.Note("racing_login", racer.id)
+	c.Note("history", clip(strings.Join(h.evs, " ")))
+	// a little more traffic, then everybody — the racing client included — must hold the server's list
+	if r.Chance(50) && !c.failed {
+		h.step(r)
+	}
+	for _, cl := range h.live() {
+		if !cl.agreed && !c.failed {
+			h.agree(r, cl)
+		}
+	}
+	if !c.failed {
+		h.convergenceCheck("after a login + list fetch placed inside another user's Disconnect")
+	}
+	h.idsCheck("after the race")
+	c.Nontrivial(fmt.Sprintf("race n=%d x=%d %x", n, x.id, c.Seed))
+	c.Dist("disconnect-race/run")
 }
 
 // ---------------------------------------------------------------- switching the automatic reply / refusal off again
@@ -1528,7 +1664,7 @@ func runPresenceWire(c *Case) {
 
 func init() {
 	props["C13"] = func(x *Ctx) {
-		x.rule = "histories of connect (1.5+ login, name still empty) / agreed (name, 2- or 4-byte icon, options 0..7, automatic response) / set-client-user-info (with and without options) / set-user (privilege change by users with and without modify-user; toggles the admin flag) / disconnect / instant message (refuse flag, automatic reply, quote, ids nobody holds) / fetch by 2-8 clients over 6 accounts; per-connection inboxes are built by routing every transaction through the real client table; after events (25%) and at the end, when no login is half-way, every client's folded roster must equal a fresh user-list reply. id-wrap: users alive at ids 1,2,3,7,100,65533..65535 while the counter crosses 65 535 / 2^32 with adds and deletes; long-wrap: one 2·10^5-step add/delete history (<= 40 alive) crossing 65 535 three times; targeted: message / invitation / info / disconnect addressed to an id after the wrap; option-switch: automatic response / refuse-messages switched on, changed, off (and on) again with set-client-user-info, then a private message each way judged against the current settings; presence-wire: both login flows, Agreed, set-client-user-info, fetch and client-side close over real connections (handleNewConnection + processOutbox), rosters folded from the bytes each connection received. non-trivial = history with >= 2 completed logins, a later change or departure and >= 1 roster comparison (presence); every wrap / targeted case; distinct = distinct event lists / parameters"
+		x.rule = "histories of connect (1.5+ login, name still empty) / agreed (name, 2- or 4-byte icon, options 0..7, automatic response) / set-client-user-info (with and without options) / set-user (privilege change by users with and without modify-user; toggles the admin flag) / disconnect / instant message (refuse flag, automatic reply, quote, ids nobody holds) / fetch by 2-8 clients over 6 accounts; per-connection inboxes are built by routing every transaction through the real client table; after events (25%) and at the end, when no login is half-way, every client's folded roster must equal a fresh user-list reply. id-wrap: users alive at ids 1,2,3,7,100,65533..65535 while the counter crosses 65 535 / 2^32 with adds and deletes; long-wrap: one 2·10^5-step add/delete history (<= 40 alive) crossing 65 535 three times; disconnect-race: another client's login + list fetch placed (client-manager wrapper) at the moment Disconnect lists the table for its user-left audience, then roster convergence of everybody; targeted: private-chat traffic / message / invitation / info / disconnect addressed to an id after the wrap; option-switch: automatic response / refuse-messages switched on, changed, off (and on) again with set-client-user-info, then a private message each way judged against the current settings; presence-wire: both login flows, Agreed, set-client-user-info, fetch and client-side close over real connections (handleNewConnection + processOutbox), rosters folded from the bytes each connection received. non-trivial = history with >= 2 completed logins, a later change or departure and >= 1 roster comparison (presence); every wrap / targeted case; distinct = distinct event lists / parameters"
 		x.assume = []string{
 			"a client fetches its user list after its own login completed and sends Agreed once (the server does not echo a user's own Agreed back to it)",
 			"roster comparison only when nothing is in flight and no login is half-way (DESIGN §7 C13 Reading); histories are sequential",
@@ -1542,6 +1678,7 @@ func init() {
 			{Name: "targeted", Quick: 48, Thor: 500, Run: runTargeted},
 			{Name: "presence-wire", Quick: 16, Thor: 300, Run: runPresenceWire},
 			{Name: "option-switch", Quick: 150, Thor: 4000, Run: runOptionSwitch},
+			{Name: "disconnect-race", Quick: 150, Thor: 4000, Run: runDisconnectRace},
 		}
 		only := os.Getenv("VERIF_ONLY_FAMILY") // development aid: run a single family
 		for _, f := range fams {
